@@ -41,6 +41,21 @@ Theorem C09_driver_requests_nondecreasing :
     <= fst (Trace_proofs.pe_chain (Sched.i_chain inp) (Sched.init_of cs (Sched.i_src inp)) (Confluence_proofs.tfun cs c j')).
 Proof. intros cs c inp j j' W. apply Trace_proofs.requests_nondecreasing; exact W. Qed.
 
+(** The same along every path through pull-based components: the event blocks ([Trace_proofs.ublock]: every pull, every
+    request that reaches a source output or a buffering adapter) of the j-th and the j'-th update of a consumer have the
+    same shape, and every time in the later block is at or after the corresponding time in the earlier one. *)
+Theorem C09_driver_blocks_monotone :
+  forall cs c (j j' : nat),
+    Sched_proofs.wf cs -> Sched.is_time cs c = true -> (j <= j')%nat ->
+    Forall2 Trace_proofs.ev_le (Trace_proofs.ublock cs c (Confluence_proofs.tfun cs c j) [])
+                               (Trace_proofs.ublock cs c (Confluence_proofs.tfun cs c j') []).
+Proof.
+  intros cs c j j' W Tc Hj. apply Trace_proofs.ublock_mono.
+  destruct (Nat.eq_dec j j') as [->|Ne]; [apply Z.le_refl|].
+  apply Z.lt_le_incl. apply (Confluence_proofs.tfun_mono_strict cs W c Tc j j').
+  destruct (Nat.lt_ge_cases j j') as [H|H]; [exact H|exfalso; apply Ne; apply Nat.le_antisymm; assumption].
+Qed.
+
 (** Non-vacuity: a concrete valid interleaving with two consumers, evictions and diverging requests. *)
 Definition ex_ops : list (op nat) :=
   [Push 0 0%nat; Push 10 1%nat; Pull 1 0; Pull 2 10; Push 20 2%nat; Pull 1 14; Pull 2 20;
@@ -55,3 +70,4 @@ Proof. split; [|vm_compute; reflexivity]. simpl. unfold pull_ok. simpl. repeat s
 Print Assumptions C09_refines_unbounded.
 Print Assumptions C09_bounded.
 Print Assumptions C09_driver_requests_nondecreasing.
+Print Assumptions C09_driver_blocks_monotone.
